@@ -44,6 +44,7 @@ func runC20(r *Run) {
 		r.Count(fmt.Sprintf("map/%v", acct.State))
 	}
 	runC20Sweeps(r)
+	runC20Rpc(r)
 	for ver := 0; ver <= 2; ver++ {
 		for knows := 0; knows <= 1; knows++ {
 			lcRecoverReservation(r, ver, knows == 1, false)
